@@ -346,7 +346,6 @@ namespace {
         for (int i = 0; i < nparties; i++) kinds.push_back((os_mask >> i) & 1 ? PARTY_OS : PARTY_TASK);
         Program const& prog = ctx.program;
         P.launch(kinds, [&prog, kinds](int i) { R.run_party(prog, i, kinds[(size_t) i]); });
-        sim_quiesce(2000000);
         int64_t cleanups = 0;
         while (!P.all_finished())
         {
@@ -396,6 +395,7 @@ namespace {
             main_pause();
         }
         P.join_os();
+        sim_quiesce(2000000);
         probe("cleanup_notifies", (uint64_t) cleanups);
         pk::stop();
     }
@@ -453,9 +453,9 @@ namespace {
                 notify_ret_ns = sim_now_ns();
             }
         });
-        sim_quiesce(2000000);
         while (!P.all_finished()) main_pause();
         P.join_os();
+        sim_quiesce(2000000);
         if (notify_ret_ns < deadline_ns)
             VH_CHECK(result == 1, "C07.timeout_despite_notify", "OS-thread timed wait returned false");
         pk::stop();
